@@ -26,6 +26,12 @@ def K(id, file, name, tiers=('quick', 'thorough'), tq=600, tt=3600, **kw):
 
 PROPS = {}
 
+def BR(id, quick, thorough=None, **kw):
+    """harness bodies of proofs/* driven through engine L by the bridge (harness/src/kernels/bridge.rs): the cfg is the harness name.
+    Verdict codes 21 (input buffer exhausted) / 22 (float requested) are proof-structure codes."""
+    kw.setdefault('soft', [21, 22]); kw.setdefault('unwind', 24); kw.setdefault('feas_ms', 2000)
+    return L(id, 'k_h_{cfg}', quick, thorough if thorough is not None else quick, **kw)
+
 def cfg_bits(cfg):
     w, s, p = cfg.split('_')[:3]
     return int(w[1:]), int(s[1:]), int(p[1:])
@@ -73,6 +79,7 @@ def cuts_fixes(cfg, tier, seed):
 PROPS['C01'] = dict(
     obligations=[
         L('c01_step', 'k_c01_step_{cfg}', QUICK, ALL, fixes=cuts_fixes),
+        BR('c01_harness_via_irsym', ['ans_view_u32_u64', 'ans_view_u8_u32', 'ans_export_u8_u32', 'ans_export_u32_u64', 'ans_reimport_u32_u64']),
         L('c01_batch_eq_loop', 'k_c01_batch_{cfg}', ['u8_u16_p4', 'u32_u64_p24'], ['u8_u16_p4', 'u8_u16_p8', 'u16_u32_p12', 'u32_u64_p24'], cap=dict(quick=60, thorough=600)),
         L('c01_batch_dec_eq_loop', 'k_c01_batch_dec_{cfg}', ['u8_u16_p4'], ['u8_u16_p4', 'u16_u32_p12', 'u32_u64_p24'], cap=dict(quick=60, thorough=600)),
         K('c01_ctor_u8_u16', 'ans', 'ctor_u8_u16'), K('c01_ctor_u16_u32', 'ans', 'ctor_u16_u32'), K('c01_ctor_u32_u64', 'ans', 'ctor_u32_u64'),
@@ -95,6 +102,7 @@ PROPS['C01'] = dict(
 PROPS['C04'] = dict(
     obligations=[
         L('c04_step', 'k_c04_step_{cfg}', QUICK, ALL, fixes=cuts_fixes),
+        BR('c04_harness_via_irsym', ['ans_binary_u32_u64', 'ans_binary_u16_u32', 'ans_guards_u32_u64']),
         K('c04_binary_u8_u16', 'ans', 'binary_u8_u16'), K('c04_binary_u16_u32', 'ans', 'binary_u16_u32'),
         K('c04_binary_u32_u64', 'ans', 'binary_u32_u64'), K('c04_binary_u8_u32', 'ans', 'binary_u8_u32', tiers=('thorough',)),
         K('c04_guards_u8_u16', 'ans', 'guards_u8_u16'), K('c04_guards_u16_u32', 'ans', 'guards_u16_u32'),
@@ -256,6 +264,7 @@ PROPS['C16'] = dict(
         K('c16_queue_fifo', 'bits', 'queue_fifo', tq=900),
         K('c16_expgolomb_u8', 'bits', 'expgolomb_u8', tq=900),
         K('c16_expgolomb_u16', 'bits', 'expgolomb_u16', tiers=('thorough',), tt=3600),
+        BR('c16_harness_via_irsym', ['expgolomb_u16'], unwind=40),
         K('c16_expgolomb_coders', 'bits', 'expgolomb_through_coders', tiers=('thorough',), tt=7200),
     ],
     bounds='Word=u8 over the real Vec<u8>: symbolic scripts of 6 write/read operations starting from ANY imported content of <= 2 words (any fill level); every bit string of <= 17 bits (all fill levels of the last word: 0,7,8,9,...,17) for '
@@ -268,6 +277,8 @@ PROPS['C15'] = dict(
     obligations=[
         K('c15_huffman_n1', 'bits', 'huffman_n1', tq=600), K('c15_huffman_n2', 'bits', 'huffman_n2', tq=600),
         K('c15_huffman_n3', 'bits', 'huffman_n3', tq=900), K('c15_huffman_n4', 'bits', 'huffman_n4', tiers=('thorough',), tt=7200),
+        # the same harness bodies driven by a symbolic byte buffer through engine L (harness/src/kernels/bridge.rs)
+        L('c15_huffman_bridge', 'k_h_huffman_{cfg}', ['n2', 'n3'], ['n2', 'n3', 'n4'], unwind=24, feas_ms=2000, explore_cap=dict(quick=400, thorough=3000)),
         K('c15_huffman_float_n2', 'bits', 'huffman_float_n2', tq=600), K('c15_huffman_float_n3', 'bits', 'huffman_float_n3', tiers=('thorough',), tt=7200),
     ],
     bounds='all weight vectors of n <= 3 (quick) / n <= 4 (thorough) u8 weights widened to u32 (no overflow), and all f32 triples (NaN => error; zeros, infinities, repeated weights); '
@@ -279,7 +290,8 @@ PROPS['C15'] = dict(
 M_FIXED = [K('m_fixed_contiguous_p8', 'models', 'fixed_contiguous_p8', tq=1500), K('m_fixed_contiguous_p4', 'models', 'fixed_contiguous_p4', tq=1500),
            K('m_fixed_contiguous_quantile_p8', 'models', 'fixed_contiguous_quantile_p8', tq=1500), K('m_fixed_contiguous_quantile_p4', 'models', 'fixed_contiguous_quantile_p4', tq=1500),
            K('m_fixed_noncontig_p8', 'models', 'fixed_noncontig_p8', tiers=('thorough',), tt=7200, mem_gb=40), K('m_fixed_noncontig_p4', 'models', 'fixed_noncontig_p4', tiers=('thorough',)),
-           K('m_fixed_lookup_p3', 'models', 'fixed_lookup_p3', tiers=('thorough',), tt=7200, mem_gb=40), K('m_fixed_lookup_p8', 'models', 'fixed_lookup_p8', tiers=('thorough',))]
+           K('m_fixed_lookup_p3', 'models', 'fixed_lookup_p3', tiers=('thorough',), tt=7200, mem_gb=40), K('m_fixed_lookup_p8', 'models', 'fixed_lookup_p8', tiers=('thorough',)),
+           BR('m_fixed_harness_via_irsym', ['fixed_noncontig_p4', 'fixed_noncontig_p8'], ['fixed_noncontig_p4', 'fixed_noncontig_p8', 'fixed_lookup_p3'], explore_cap=dict(quick=300, thorough=3000))]
 M_UNIFORM = [K('m_uniform_u8_p8', 'models', 'uniform_u8_p8', tq=600), K('m_uniform_u8_p5', 'models', 'uniform_u8_p5', tq=600)]
 M_FLOAT = [K('m_fast_f32_n3_p4_norm1', 'models', 'fast_f32_n3_p4_norm1', tq=900), K('m_lazy_f32_n3_p4_valid', 'models', 'lazy_f32_n3_p4_valid', tq=900), K('m_fast_f32_n2_p3_nonorm', 'models', 'fast_f32_n2_p3_nonorm', tq=900)]
 M_QUANT = [K('m_quantizer_u8_p4_sup3', 'models', 'quantizer_u8_p4_sup3', tq=1200), K('m_fast_f32_n3_p24_u32', 'models', 'fast_f32_n3_p24_u32', tiers=('thorough',), tt=14400, mem_gb=40)]
@@ -336,7 +348,8 @@ RG = [K('c08_range_guard_normal_u8_u16', 'rangek', 'range_guard_normal_u8_u16', 
 ANS_VIEWS = [K('c08_ans_view_u8_u16', 'ans', 'view_u8_u16'), K('c08_ans_view_u16_u32', 'ans', 'view_u16_u32'), K('c08_ans_view_u32_u64', 'ans', 'view_u32_u64', tiers=('thorough',)),
              K('c08_ans_binary_view_u8_u16', 'ans', 'guards_u8_u16'), K('c08_ans_binary_view_u16_u32', 'ans', 'guards_u16_u32', tiers=('thorough',))]
 PROPS['C08'] = dict(
-    obligations=ANS_VIEWS + RG + [K('c08_range_decoder_view_u8_u16', 'rangek', 'range_decoder_view_u8_u16', tq=600),
+    obligations=ANS_VIEWS + RG + [BR('c08_harness_via_irsym', ['range_guard_inverted_u8_u16', 'range_guard_inverted_u16_u32', 'range_guard_inverted_u32_u64', 'range_guard_normal_u32_u64', 'ans_view_u32_u64', 'ans_view_u8_u32', 'ans_guards_u32_u64']),
+                                  K('c08_range_decoder_view_u8_u16', 'rangek', 'range_decoder_view_u8_u16', tq=600),
                                   K('c08_bit_stack_guard', 'bits', 'stack_guard', tq=900), K('c08_bit_queue_guard', 'bits', 'queue_guard', tq=900)],
     bounds='ANS: any invariant raw state over Vec (bulk <= 1 word) at u8/u16, u16/u32, u32/u64; range encoder: any raw state, Normal or Inverted(n <= 2, w), bulk <= 1 word; '
            'bit coders: every content of <= 9 bits incl. an exactly full word and the empty coder, followed by one further operation. The view must equal an independent arithmetic expectation '
@@ -350,6 +363,7 @@ PROPS['C18'] = dict(
                  K('c18_ans_valid_bits_u8_u16', 'ans', 'binary_u8_u16'), K('c18_ans_valid_bits_u16_u32', 'ans', 'binary_u16_u32', tiers=('thorough',))] + RG[:6] +
                 [K('c18_bit_len_stack', 'bits', 'stack_export_import', tq=900), K('c18_bit_len_queue', 'bits', 'queue_fifo', tq=900),
                  K('c18_float_views', 'models', 'conv_symbol_table', tq=900),
+                 BR('c18_harness_via_irsym', ['range_guard_inverted_u8_u16', 'range_guard_inverted_u16_u32', 'range_guard_inverted_u32_u64', 'range_guard_normal_u32_u64', 'ans_binary_u32_u64', 'ans_binary_u16_u32', 'ans_export_u32_u64', 'ans_export_u8_u32']),
                  L('c18_range_sizes', 'k_c18_range_sizes_{cfg}', ['u8_u16', 'u16_u32', 'u32_u64'], ['u8_u16', 'u16_u32', 'u32_u64', 'u8_u32']),
                  L('c18_range_exhaustion', 'k_c02_fresh_k2_{cfg}', ['u8_u16_p4'], ['u8_u16_p4', 'u8_u16_p8', 'u16_u32_p12'], cap=dict(quick=90, thorough=600), explore_cap=dict(quick=400, thorough=3000)),
                  L('c18_range_exhaustion_k1', 'k_c02_rt_k1_{cfg}', RQ, RALL, fixes=range_fixes)],
